@@ -18,4 +18,4 @@ one() {
   if [ -z "$bad" ]; then echo "$P: silent"; else echo "$P: ALARM$bad"; fi
 }
 export -f one; export BIN
-printf '%s\n' "$@" | xargs -P 5 -I{} bash -c 'one {}'
+printf '%s\n' "$@" | xargs -P ${SWEEP_PAR:-5} -I{} bash -c 'one {}'
